@@ -101,7 +101,9 @@ func genC11Case(t *rapid.T) C11Case {
 		spec.IdP.InterceptorIssuer = rapid.SampledFrom([]string{"https://tenant-from-interceptor.example/saml", "https://tenant-from-interceptor.example"}).Draw(t, "interceptorissuer")
 		spec.IdP.InterceptorNeutral = rapid.Bool().Draw(t, "interceptorboth")
 	}
-	c := C11Case{Spec: spec, Host: rapid.SampledFrom(append(reqHosts, "UPPER.Example", "idp.example.", "localhost:8080", "xn--bcher-kva.idp.example", "idp--staging.example:8443", "a--b--c.example")).Draw(t, "host")}
+	c := C11Case{Spec: spec, Host: rapid.SampledFrom(append(reqHosts, "UPPER.Example", "idp.example.", "localhost:8080", "xn--bcher-kva.idp.example", "idp--staging.example:8443", "a--b--c.example",
+		// a Host header may be as long as the server accepts: the entity ID derived from it exceeds every schema facet
+		strings.Repeat("long-label-of-the-tenant.", 44)+"idp.example", strings.Repeat("x", 4000)+".idp.example:8443")).Draw(t, "host")}
 	c.Rotate = rapid.IntRange(0, 2).Draw(t, "rotate") == 0
 	if idp.IssuerMode == "forwarded" && rapid.Bool().Draw(t, "fwd") {
 		c.Headers = [][2]string{{"Forwarded", "for=192.0.2.9;host=" + rapid.SampledFrom([]string{"public.idp.example", "\"proxy.example:444\"", "xn--public-idp.example"}).Draw(t, "fwdhost")}}
@@ -112,6 +114,38 @@ func genC11Case(t *rapid.T) C11Case {
 func c11Run(c C11Case) (vs []*ev.Violation, summary map[string]any) {
 	w := mustBuild(c.Spec)
 	vs, summary = c11Round(c, w, "")
+	if len(vs) == 0 {
+		// what is published while the key store is down: an error, or a document that still names the signing certificate - never
+		// a description of an IdP without key
+		for _, kind := range []string{"error", "nil", "timeout"} {
+			w.Store.SetFaults([]world.Fault{{Op: "GetResponseSigningKey", Occurrence: 0, Kind: kind}})
+			rep := obs.Do(w.Handler, obs.HTTPReq{Method: "GET", Path: c.Spec.IdP.Route("metadata"), Host: c.Host, Headers: c.Headers})
+			w.Store.SetFaults(nil)
+			if rep.Panic != "" {
+				vs = append(vs, ev.V("C11/panic", "metadata handler panicked while the key store failed (%s): %s", kind, rep.Panic))
+				break
+			}
+			if rep.Status != 200 {
+				continue
+			}
+			doc, err := xt.Parse(rep.Body)
+			if err != nil {
+				vs = append(vs, ev.V("C11/metadata-not-well-formed", "while the key store failed (%s): %v", kind, err))
+				break
+			}
+			n := 0
+			doc.Root.Walk(func(e *xt.Node) {
+				if e.Space == world.NSDS && e.Local == "X509Certificate" && strings.TrimSpace(e.Text()) != "" {
+					n++
+				}
+			})
+			if n == 0 {
+				vs = append(vs, ev.V("C11/no-signing-keydescriptor", "metadata served with status 200 while the key store failed (%s) names no signing certificate", kind))
+				break
+			}
+		}
+		w.Store.ResetLog()
+	}
 	if c.Rotate && len(vs) == 0 {
 		w.Store.RotateResponseKey("sp-2048")
 		w.Store.ResetLog()
